@@ -2,7 +2,7 @@
 import solvercheck, framework
 PID = "C04"
 MODULE = "MysticVerif.Props.C04"
-THEOREMS = ["MysticVerif.C04.de_history_antitone", "MysticVerif.C04.de_last_history_is_best", "MysticVerif.C04.de_one_record_per_step", "MysticVerif.C04.de_log_prefix", "MysticVerif.C04.de_evalmon_records", "MysticVerif.C04.de_evals_per_step", "MysticVerif.C04.nm_history", "MysticVerif.C04.step_evals", "MysticVerif.C04.finalize_setLimits_keep_evals", "MysticVerif.C04.evals_eq_sum_of_ran"]
+THEOREMS = ["MysticVerif.C04.de_history_antitone", "MysticVerif.C04.de_last_history_is_best", "MysticVerif.C04.de_one_record_per_step", "MysticVerif.C04.de_log_prefix", "MysticVerif.C04.de_evalmon_records", "MysticVerif.C04.de_evals_per_step", "MysticVerif.C04.nm_history", "MysticVerif.C04.step_evals", "MysticVerif.C04.finalize_setLimits_keep_evals", "MysticVerif.C04.evals_eq_sum_of_ran", "MysticVerif.C04.pw_history_antitone", "MysticVerif.C04.pw_last_history_is_best", "MysticVerif.C04.pw_log_prefix", "MysticVerif.C04.pw_evalmon_records", "MysticVerif.C04.pw_one_record_per_step", "MysticVerif.C04.pw_at_most_one_record_per_call"]
 
 
 def run_shard(pid, seed, shard, ncases, tier, extra):
@@ -14,7 +14,7 @@ def main(tier, seed):
 
 
 RULE_EXTRA = 'evaluation counter vs real cost calls after EVERY op; evaluation monitor content vs calls; callback log; wrapper funcalls.'
-TRUSTED_EXTRA = ['callback and monitor objects: implementation monitor only; control loop replayed by the Lean Ctl model for all four solvers']
+TRUSTED_EXTRA = ["Powell: the Brent line search is an oracle of the model (which points it evaluates, which one it returns), recorded from the real run; the contract 'never worse than the start' (LsMono) is checked on every recorded search; everything else of PowellDirectionalSolver._Step is computed by the model and replayed bit for bit (histogram model:pw, pw-iterations, pw-extrapolation-searches)", 'callback and monitor objects: implementation monitor only; control loop replayed by the Lean Ctl model for all four solvers']
 
 
 def replay(path):
